@@ -208,6 +208,12 @@ theorem bridge_begin_apply_methods (t : Rel) (pref : Option Engine) :
    fun p => Bridge.Selection_begin_apply_eq p t pref, fun s e => Bridge.Slice_begin_apply_eq s e t pref,
    fun ts => Bridge.Sort_begin_apply_eq ts t pref⟩
 
+/-- Tie to the source: `Join._begin_apply` (column checks, resolution of the common columns, the join-identity
+short-cut and its cross-engine refusal), as translated from the current Python source on this run, is the model's
+`joinBeginApply` - the function `cross_engine_join_apply_*` are stated with. -/
+theorem bridge_join_begin_apply (j : JoinOp) (l r : Rel) : Gen.Join_begin_apply j l r = joinBeginApply j l r :=
+  Bridge.Join_begin_apply_eq j l r
+
 /-- Tie to the source: `PartialJoin._begin_apply` (the column check of `relation.join`), as translated from the current
 Python source on this run, is the model's `PJoin.beginApply`. -/
 theorem bridge_partial_join_begin_apply (fuel : Nat) (p : PJoin) (t : Rel) (pref : Option Engine) :
